@@ -23,3 +23,11 @@ MUTANTS = [
     dict(id="c16-twin-middle", props=["C16"], expect="silent", file=F, old="results_middle_snapshots.append(n + time_nsnapshot // 2)", new="half = time_nsnapshot // 2\n        results_middle_snapshots.append(half + n)"),
     dict(id="c16-twin-gaussian", props=["C16"], expect="silent", file="utils/funcs.py", old="return np.exp(-np.square(distances) / sigma2) / np.sqrt(sigma2 * np.pi)", new="norm = 1.0 / (np.sqrt(2 * np.pi) * sigma)\n    return norm * np.exp(-0.5 * (distances / sigma) ** 2)"),
 ]
+MUTANTS += [
+    dict(id="c16-twin-vectorised-masked", props=["C16"], expect="silent", file=F,
+         old="            for i in range(input_property.shape[1]):\n                # in case input_property is multi-dimensional\n                for j in cnlist[i, 1:1 + cnlist[i, 0]]:\n                    cg_input_property[n, i] += input_property[n, j]\n                cg_input_property[n, i] /= (1 + cnlist[i, 0])\n",
+         new="            nb = cnlist[:, 1:]\n            occ = np.arange(nb.shape[1])[np.newaxis, :] < cnlist[:, :1]\n            tail = (1,) * (input_property.ndim - 2)\n            vals = np.where(occ.reshape(occ.shape + tail), input_property[n][nb], 0)\n            cg_input_property[n] += vals.sum(axis=1)\n            cg_input_property[n] /= (1 + cnlist[:, 0]).reshape((-1,) + tail)\n"),
+    dict(id="c16-vectorised-padded", props=["C16"], expect="fire", file=F,
+         old="            for i in range(input_property.shape[1]):\n                # in case input_property is multi-dimensional\n                for j in cnlist[i, 1:1 + cnlist[i, 0]]:\n                    cg_input_property[n, i] += input_property[n, j]\n                cg_input_property[n, i] /= (1 + cnlist[i, 0])\n",
+         new="            tail = (1,) * (input_property.ndim - 2)\n            cg_input_property[n] += input_property[n][cnlist[:, 1:]].sum(axis=1)\n            cg_input_property[n] /= (1 + cnlist[:, 0]).reshape((-1,) + tail)\n", mention="mean"),
+]
